@@ -31,13 +31,39 @@ def conforms(schema, value):
         return None
 
 
-def oracle(desc):
+def decode_scalar(text, schema):
+    """what a receiver reads back from the serialised parameter, given the declared type"""
+    def types_of(s, root):
+        t = s.get("type")
+        if t is None and "$ref" in s:
+            cur = root
+            for p in s["$ref"][2:].split("/"):
+                cur = cur[p]
+            return types_of(cur, root)
+        return [t] if isinstance(t, str) else (t or [])
+    ts = types_of(schema, schema)
+    if not isinstance(text, str):
+        return text
+    if "integer" in ts or "number" in ts:
+        try:
+            return int(text)
+        except ValueError:
+            try:
+                return float(text)
+            except ValueError:
+                return text
+    if "boolean" in ts:
+        return {"true": True, "false": False}.get(text, text)
+    return text
+
+
+def oracle(desc, cache=None):
     res = []
     try:
         api = OpenApi.from_dict(copy.deepcopy(desc))
     except Exception as e:  # noqa
         return res
-    cache = G.SampleCache()
+    cache = cache if cache is not None else G.SampleCache()
     G.InsertParamLeaf.apply = _param_apply
     G.InsertBodyLeaf.apply = _body_apply
     try:
@@ -75,6 +101,17 @@ def oracle(desc):
                     if kind == "param":
                         carried[(leaf.parameter.name, leaf.parameter.position)] = leaf
                         c = conforms(leaf.parameter.schema, leaf.raw_value)
+                        # the value the request really carries is the serialised one
+                        p = leaf.parameter
+                        store = {ParameterPosition.QUERY: rq.query_parameters, ParameterPosition.HEADER: rq.headers,
+                                 ParameterPosition.PATH: rq.path_parameters, ParameterPosition.COOKIE: rq.cookies}[p.position]
+                        if isinstance(leaf.raw_value, (str, int, float, bool)) and p.name in store and c is not None:
+                            back = decode_scalar(store[p.name], p.schema)
+                            cb = conforms(p.schema, back)
+                            if cb is not None and cb != c and type(back) in (int, float, bool, str):
+                                res.append(("carried-value-differs", "operation %s: parameter %s carries %r (read back as %r) for the sample %r: one conforms to the schema, the other does not" % (
+                                    op.operation_id, p.name, store[p.name], back, leaf.raw_value), op.operation_id))
+                                return res
                         if c is None:
                             ok_parts = None
                         elif not c and ok_parts is not None:
@@ -147,6 +184,7 @@ def run(pid, tier):
     n = 60 if tier == "quick" else 1500
     hist = {"operations": 0, "with_body": 0, "parameters": 0}
     sys.setrecursionlimit(2500)
+    shared = G.SampleCache()          # one cache for all descriptions of the run: equal $ref names, different components
     for _ in range(n):
         desc = oagen.description(rng, rng.choice([1, 2, 3]), allow_body_scalar=False)
         txt = json.dumps(desc, sort_keys=True)
@@ -154,7 +192,7 @@ def run(pid, tier):
         hist["operations"] += len(desc["paths"])
         hist["with_body"] += txt.count("requestBody")
         hist["parameters"] += txt.count('"in":')
-        for sig, what, opid in oracle(desc):
+        for sig, what, opid in oracle(desc) + [x for x in oracle(desc, shared) if x[0] != "generate-all-raises"]:
             small = desc
             if len(ck.violations) < 2:
                 small = shrink(desc, lambda c: any(s == sig for s, _, _ in oracle(c)))
